@@ -3,9 +3,7 @@
 import json, os, re, sys
 ROOT = os.path.dirname(os.path.dirname(os.path.abspath(__file__)))
 WHY_MISSED = {
- "C01-b": "peer-to-peer initialisation (initTopicP2P case 2) — p2p reload after one side unsubscribed is outside the world model's generator until the p2p extension lands",
  "C02-a": "channel readers (isChanSub sessions) are not in the world model",
- "C02-b": "push addressing in a p2p topic after one side unsubscribed (deleted perUser record kept) — p2p only",
  "C03-b": "needs the hub blocked inside store.Topics.Delete while the topic goroutine serves a {pub}: a goroutine interleaving, the sequential harness pumps one handler at a time",
  "C09-b": "channel readers are not in the world model",
  "C10-b": "'me' topic contact loading (loadContacts/perSubs) is not in the world model",
